@@ -104,6 +104,7 @@ package compile
 //@   modifies e.np, e.ns, e.p, e.s
 //@   invariant 1 rangeindex >= -1 && rangeindex + 1 <= len(fn.pclinetab) && e.np == old(e.np) + 6 + rangeindex + 1 && e.ns == old(e.ns) + 3 && layHead(e, old(e.np), old(e.ns), fn) && layPcl(e, old(e.np), fn, rangeindex + 1)
 //@   invariant 2 rangeindex >= -1 && rangeindex + 1 <= len(fn.Cells) && e.np == qCells(fn, old(e.np)) + 1 + rangeindex + 1 && e.ns == old(e.ns) + 3 + len(fn.Locals) && layHead(e, old(e.np), old(e.ns), fn) && layPcl(e, old(e.np), fn, len(fn.pclinetab)) && layBindings(e, qLocals(fn, old(e.np)), old(e.ns) + 3, fn.Locals) && layCells(e, old(e.np), fn, rangeindex + 1)
+//@   assert /e.int\(fn.MaxStack\)/ freevars_block: e.np == qTail(fn, old(e.np)) && e.ns == old(e.ns) + lenS(fn) && layBindings(e, qFree(fn, old(e.np)), old(e.ns) + 3 + len(fn.Locals), fn.FreeVars)
 //@   ensures e.np == old(e.np) + lenP(fn) && e.ns == old(e.ns) + lenS(fn)
 //@   ensures record: layFuncode(e, old(e.np), old(e.ns), fn)
 //@ func b2i
